@@ -666,6 +666,19 @@ impl<K: Ord, V, const ORD: u8> SlotMap<K, V, ORD> {
         self.len = at;
         out
     }
+    /// IndexMap::truncate(n): keeps the first n entries (insertion order)
+    pub fn truncate(&mut self, n: usize) {
+        let mut i = 0;
+        while i < CAP {
+            if i >= n && i < self.len {
+                self.items[i] = None;
+            }
+            i += 1;
+        }
+        if n < self.len {
+            self.len = n;
+        }
+    }
     /// IndexMap::get_index
     pub fn get_index(&self, i: usize) -> Option<(&K, &V)> {
         if i < self.len {
